@@ -81,7 +81,7 @@ SIX = ['kern', 'ekern', 'bkern', 'bekern', 'akern', 'aekern']
 class C15:
     PROPERTY = 'C15'
     TIERS = {
-        'quick': {'runs': 7200, 'wall_cap_s': 300, 'chunk': 40},
+        'quick': {'runs': 5600, 'wall_cap_s': 300, 'chunk': 40},
         'thorough': {'runs': 160000, 'wall_cap_s': 1500, 'chunk': 50},
     }
     RULE = ('a pool of <=5 document handles driven by <=8 seeded operations: import, to_transposed (all 40 interval names x 2 '
